@@ -96,6 +96,9 @@ def run_cli(args, expect=None):
                 if name in ignore:
                     continue
                 g = calls[0].get(name)
+                if modname == "haptools.ld" and name == "ids" and g is not None and w is not None:
+                    # calc_ld lists every requested ID once, in the order of first mention: repeats may be dropped on either side
+                    g, w = tuple(dict.fromkeys(g)), tuple(dict.fromkeys(w))
                 if _canon_arg(g) != _canon_arg(w):
                     diffs.append(f"{name}: the command line passes {g!r}, the options given mean {w!r}")
             glue = "; ".join(diffs) or None
@@ -135,8 +138,9 @@ def write_list(path, items):
 
 
 def gen(rng, tier):
-    n = 60 if tier == "quick" else 1200
-    kinds = ["transform", "transform", "simphenotype", "ld", "ld", "index", "clump", "simgenotype", "karyogram", "both_forms"]
+    n = 78 if tier == "quick" else 1300
+    kinds = ["transform", "transform", "simphenotype", "ld", "ld", "index", "clump", "simgenotype", "karyogram", "both_forms", "ld", "karyogram", "ld"]
+    absent_names = ["Sample_9", "Sample", "Sample_", "Sample_1_1", "Sam", "sample_1"]
     haps, snps, samples = list(HAPS), [f"snp{chr(65+j)}" for j in range(NV)], list(SAMPLES)
     for t in range(n):
         k = kinds[t % len(kinds)]
@@ -153,7 +157,7 @@ def gen(rng, tier):
             ids = rng.sample(pool_ids, rng.randint(1, len(pool_ids)))  # in a non-alphabetical order
             if rng.random() < 0.25:
                 ids.insert(rng.randrange(len(ids) + 1), "nosuchID")
-            if k == "ld" and c["from_gts"] and rng.random() < 0.3:
+            if k == "ld" and c["from_gts"] and rng.random() < 0.5:
                 # as many unknown IDs as variants of the target haplotype that are not requested
                 tv = {"hapA": ["snpA", "snpC"], "hapB": ["snpB", "snpE"]}.get(c["target"], [])
                 ids = [x for x in ids if x != "nosuchID"]
@@ -182,8 +186,11 @@ def gen(rng, tier):
         pool = {"transform": ["discard_missing", "maf", "chunk"], "simphenotype": ["environment", "prevalence", "no_normalize", "chunk"], "ld": ["discard_missing", "chunk"]}.get(k, [])
         c["extras"] = sorted(rng.sample(pool, rng.randint(0, len(pool)))) if pool else []
         c["failing"] = k == "index" and rng.random() < 0.5
-        c["absent_sample"] = k == "karyogram" and rng.random() < 0.5
-        c["absent_name"] = rng.choice(["Sample_9", "Sample", "Sample_", "Sample_1_1", "Sam", "sample_1"])
+        # karyogram: every other case names a sample that is absent, going through the absent names in turn (a prefix of a
+        # present name, a strand ID, another capitalisation, …)
+        kth = sum(1 for u in range(t) if kinds[u % len(kinds)] == "karyogram")
+        c["absent_sample"] = k == "karyogram" and kth % 2 == 0
+        c["absent_name"] = absent_names[(kth // 2) % len(absent_names)]
         c["seed"] = rng.randrange(2**31)
         yield c
 
@@ -490,7 +497,7 @@ CHECK = Check(
             setup=c19b.setup,
             teardown=c19b.teardown,
             nontrivial=lambda c, o: C.jdump(c),
-            rule="random texts over an alphabet of name pieces, blanks, \\n, \\r\\n, \\r and every other separator of str.splitlines (VT, FF, FS, GS, RS, U+0085, U+2028, U+2029) written byte for byte to a file that is given as --ids-file and -S to ld / transform / simphenotype; the names the entry point receives (ld: in order, with duplicates) compared with the model's `readLines`; the model of str.splitlines used for the pre-fix witness is compared with Python's on the same texts",
+            rule="random texts over an alphabet of name pieces, blanks, \\n, \\r\\n, \\r and every other separator of str.splitlines (VT, FF, FS, GS, RS, U+0085, U+2028, U+2029) written byte for byte to a file that is given as --ids-file and -S to ld / transform / simphenotype; the names the entry point receives (ld: in order of first mention) compared with the model's `readLines`; the model of str.splitlines used for the pre-fix witness is compared with Python's on the same texts",
         ),
     ],
     trusted=["click's type conversion of option values, its handling of --opt=value and clustered short options (not modelled) and its exit-code policy (usage errors exit with 2, exceptions with 1)"],
